@@ -68,6 +68,19 @@ def run(ctx):
     return replay_tables(ctx, binary, thorough)
 
 
+H17_KEY = "propeller-validator:honest-unit-rejected:proof-checked-against-marshalled-shards"
+
+
+def leaf_encoding(ctx):
+    """Which Merkle leaf encoding the validator of this tree uses - taken from known_findings.json, never found out
+    by trying on the tree under test: H17 listed as known => the validator hashes the protobuf encoding of
+    ShardData; fixed / unlisted => the repaired design (raw shard bytes, as CreatePropellerUnits does)."""
+    for k in ctx.known:
+        if k.get("status") == "known" and vlib.key_matches(k["key"], H17_KEY):
+            return "proto"
+    return "raw"
+
+
 def replay_tables(ctx, binary, thorough):
     with ThreadPoolExecutor(max_workers=2) as ex:
         fut_fix = ex.submit(tables, ctx, "Propeller_sim_fix.cfg")
@@ -76,7 +89,7 @@ def replay_tables(ctx, binary, thorough):
     if len(fix) != len(cur) or len(fix) < 13:
         raise vlib.Broken("expected one table per configuration, got %d / %d" % (len(fix), len(cur)))
     fix.sort(key=lambda t: (t["d"] + t["p"], t["d"]))
-    res = ctx.run_engine(binary, "TestPropellerReplay", {"fix": fix, "cur": cur, "seed": ctx.seed, "full": thorough,
+    res = ctx.run_engine(binary, "TestPropellerReplay", {"fix": fix, "cur": cur, "seed": ctx.seed, "full": thorough, "leaf": leaf_encoding(ctx),
                                                             "concurrent": {"goroutines": 8, "rounds": 600 if thorough else 150}},
                          timeout=3000)
     ctx.absorb(res, "propeller", "TestPropellerReplay")
@@ -87,8 +100,11 @@ def replay_tables(ctx, binary, thorough):
             if not st.get(need):
                 raise vlib.Broken("vacuity: the replay ran no %s" % need)
         if st.get("session_setup_impossible"):
-            raise vlib.Broken("the validator accepts hand-built genuine units in neither leaf encoding: the stateful "
-                              "validator sequences could not be driven (%d plans)" % st["session_setup_impossible"])
+            raise vlib.Broken("validator sequences could not be set up (%d plans)" % st["session_setup_impossible"])
+    for k in ctx.known:   # a listed known finding that no longer shows is worth a note, not a verdict
+        if k.get("status") == "known" and k["key"] not in [h["key"] for h in ctx.known_hits] and not ctx.violations:
+            print("NOTE: property=C19 known finding [%s] did not reproduce on this tree" % k["key"], flush=True)
+    ctx.coverage["validator_leaf_encoding"] = leaf_encoding(ctx)
     ctx.coverage["configurations"] = ["(%d,%d)" % (t["d"], t["p"]) for t in fix]
     ctx.coverage["cases_replayed"] = res.get("steps", 0)
     ctx.assumptions += [
